@@ -212,4 +212,63 @@ CONFIG = {
         "extra_modules": ["PatVerif.Proofs.Group"],
         "contradicts": "PatVerif.Props.C11",
     },
+    "C12": {
+        "rule": "4 curves × 12/200 (key, blind key, context, digest): blind keys random, with leading zeros, ≥ N, 1..8 bytes, longer than the field; "
+                "contexts of 0/1/13/40 bytes; digests of 0..128 bytes. Blinded and unblinded public keys are recomputed by the Lean reference "
+                "(XMD hash-to-field, textbook curve arithmetic) and compared coordinate by coordinate; blinded signatures are verified by the fork, "
+                "by crypto/ecdsa and by the Lean ECDSA model, under the blinded and the unblinded key.",
+        "level_text": "hashBlind_spec (the blinding factor is hash_to_field with XMD over the curve's hash, DST 'ECDSA Key Blind', of blind-key bytes‖0x00‖context, "
+                      "with the per-curve table), blinded_signature_verifies, not_under_unblinded (explicit exceptional set), unblind_blind, blind_comm and "
+                      "blind_changes_key are Lean theorems — the algebra for every module over ZMod n with n prime (Mathlib). The executable definition the "
+                      "spec theorem is about is run against the Go fork on all four curves.",
+        "level_note": "Prime order of the NIST groups is a hypothesis of the algebra; 'blind-key bytes' is read as the big-endian bytes without leading zeros "
+                      "(what D.FillBytes of BitLen bytes gives).",
+        "trusted_base": COMMON_TB + ["Mathlib v4.33.0", "PatVerif/Exec references (validated vs crypto/elliptic, circl)"],
+        "assumptions": ["the NIST curve groups have prime order"],
+        "extra_modules": ["PatVerif.Proofs.Group", "PatVerif.Proofs.Sig"],
+        "contradicts": "PatVerif.Props.C12",
+    },
+    "C13": {
+        "rule": "4 curves × 6/120 keys: valid signatures, (r,N-s) twins, r/s ∈ {0, ±1, N-1, N, N+1, r+N, s+N, -r, -s, 2^k, random, r-N}, swapped, "
+                "digest flipped/truncated/extended, digests of 0..128 bytes and all-0xFF; ASN.1: canonical, trailing bytes outside/inside, long length "
+                "form, leading 00, negative, one/three integers, nested, indefinite, wrong tag, empty, zero integers, bit flips, truncations; entropy "
+                "readers failing at every position (quick: every 3rd) up to BitSize/8+10 with chunk sizes ∞/1/7. Three-way: fork vs Lean model vs crypto/ecdsa.",
+        "level_text": "verify_range, hashToInt_lt, parseSig_canonical / parseSig_trailing_rejected (over a model of cryptobyte's DER reader with readTLV_tlv "
+                      "proved for all four length forms), sign_verifies (algebra) and fail-closed entropy are Lean theorems about the executable "
+                      "specification; fork, specification and the standard library are compared on every generated input.",
+        "level_note": "'Same verdict as crypto/ecdsa for every input' is a statement about two programs: the theorems are about the common specification, "
+                      "the equality is observed. The s390x assembly path is not built here.",
+        "trusted_base": COMMON_TB + ["crypto/ecdsa as the reference verdict", "cryptobyte ASN.1 semantics as restated in Model/DER.lean", "Mathlib (algebra)"],
+        "assumptions": [],
+        "extra_modules": ["PatVerif.Proofs.DER", "PatVerif.Proofs.Sig"],
+        "contradicts": "PatVerif.Props.C13",
+    },
+    "C14": {
+        "rule": "60/3000 seeds × messages of 0/1/32/100/1000 bytes: key derivation and signatures byte-compared with crypto/ed25519 and the Lean RFC 8032 "
+                "model; verification on valid signatures and on S+L, S+2L, S=L, L-1, 0, 2^252, 2^253-1, all-FF, high bits of the last byte, wrong lengths, "
+                "bit flips in signature and key, 13 small-order / non-canonical point encodings as A and as R (cross product with S=0), random keys; "
+                "GenerateKey with readers failing at every position 0..34 and chunk sizes ∞/1/5.",
+        "level_text": "noncanonical_S_rejected, bad_shape_rejected, isReduced_spec (byte-wise comparison = numeric comparison), the constant L-1, and EdDSA "
+                      "correctness in every prime-order module are Lean theorems about the executable RFC 8032 specification (arithmetic over Nat); fork, "
+                      "specification and crypto/ed25519 are compared three ways on every generated input.",
+        "level_note": "PARTIAL: that the fork's limb arithmetic (scMulAdd/scReduce, field.Element) equals arithmetic mod L / mod p for every input is not proved; "
+                      "it is covered by the differential stream only. Public keys must be 32 bytes (documented precondition).",
+        "trusted_base": COMMON_TB + ["crypto/ed25519 as the reference", "PatVerif/Exec/Ed25519 (validated differentially)"],
+        "assumptions": ["limb arithmetic refines Nat arithmetic (observed)"],
+        "extra_modules": ["PatVerif.Proofs.Sig", "PatVerif.Proofs.DER"],
+        "contradicts": "PatVerif.Props.C14",
+    },
+    "C15": {
+        "rule": "40/1500 (seed, blind, context, message): blinded key, unblinded key and the whole blinded signature byte-compared with the Lean reference; "
+                "crypto/ed25519 accepts under the blinded key and rejects under the original; pairs of blinds (commutation), changed blind/context; blinds "
+                "that are not 32 bytes and arbitrary bytes as public keys through BlindPublicKey.",
+        "level_text": "blind_pk_spec (blinded key = key × SHA-512(blind‖0x00‖context)[0:32] mod L), determinism, blinded_signature_verifies, unblind_blind, "
+                      "blind_comm, blind_changes_key are Lean theorems (algebra over any prime-order module); the executable reference computes the exact "
+                      "bytes of blinded keys and signatures and must equal the fork's.",
+        "level_note": "Unblinding inverts blinding on the prime-order subgroup only (hypothesis n•A = 0); the limb arithmetic is not proved (see C14).",
+        "trusted_base": COMMON_TB + ["Mathlib", "PatVerif/Exec/Ed25519"],
+        "assumptions": ["A lies in the prime-order subgroup for unblind_blind"],
+        "extra_modules": ["PatVerif.Proofs.Group", "PatVerif.Proofs.Sig"],
+        "contradicts": "PatVerif.Props.C15",
+    },
 }
